@@ -118,6 +118,20 @@ impl<'a> G<'a> {
         self.text.push_str("} ");
         self.close();
     }
+    /// the body of if / else / while / for: a block, or a single statement without braces (which is
+    /// analysed in a scope of its own just as well -- a declaration there does not leak)
+    fn body(&mut self, depth: u32, pre: &[(&str, char)]) {
+        if self.rng.below(3) == 0 {
+            self.open(false);
+            for (n, _) in pre {
+                self.item('d', n);
+            }
+            self.stmt(0, false);
+            self.close();
+        } else {
+            self.block(depth, false, pre);
+        }
+    }
     fn stmt(&mut self, depth: u32, global: bool) {
         let r = self.rng.below(if depth == 0 { 8 } else { 15 });
         match r {
@@ -185,10 +199,10 @@ impl<'a> G<'a> {
             8 => {
                 let c = self.expr(1);
                 self.text.push_str(&format!("if ({c} == 1) "));
-                self.block(depth, false, &[]);
+                self.body(depth, &[]);
                 if self.rng.below(2) == 0 {
                     self.text.push_str("else ");
-                    self.block(depth, false, &[]);
+                    self.body(depth, &[]);
                 } else {
                     // the analyser opens and closes a scope for the absent else branch
                     self.open(false);
@@ -198,7 +212,7 @@ impl<'a> G<'a> {
             9 => {
                 let c = self.expr(1);
                 self.text.push_str(&format!("while ({c} == 1) "));
-                self.block(depth, false, &[]);
+                self.body(depth, &[]);
             }
             10 => {
                 let v = self.pool();
@@ -221,7 +235,7 @@ impl<'a> G<'a> {
                         self.text.push_str(&format!("for int {v} in {{{a}, {b}}} "));
                     }
                 }
-                self.block(depth, false, &[(v, 'd')]);
+                self.body(depth, &[(v, 'd')]);
             }
             11 => {
                 let c = self.expr(1);
